@@ -158,6 +158,16 @@ claim("C11",
   "(not installable offline). The half 'every value admitted by a parameter annotation is accepted by the encoder' is proved only for values the decoder produces.",
   "Coq proof (typing of the decoder model) + in-Coq check of observed run-time values + mypy as search", "4/C11")
 
+claim("C01",
+  "PARTIAL by nature (aggregator): 'the whole file is in CPython's grammar / imports' has no model - compile(), static name resolution, import of every module in a fresh interpreter and tomllib are the search stage. "
+  "Proved in Coq: python_identifier_valid (C09; every derived identifier is a valid non-keyword identifier under g_xid), all_sites_safe + site_sound (C05; on the regenerated interpolation-site table every site is safe and a "
+  "safe site re-lexes to exactly its payload), attrs_order_ok + attrs_order_perm (the two class-body loops put every mandatory field before every defaulted one and lose none), module_names_closed (a module assembled from ANY "
+  "list of properties reads only names provided by the header or the properties' own imports, given each property's fragments are closed) and the regenerated fact all_probe_modules_closed (GenClosed.v: in ~470 modules of probe "
+  "packages covering every kind in every position, parameters in every location, bodies, responses and both enum styles, no name is read that nothing provides and every relative import resolves). Stage B: the written file set == "
+  "Fs.gen_files on the parser's module/tag names (vm_compute). Stage C over atlas x flavours x switches, random documents and documents whose every name comes from the identifier-hostile quote-free alphabet.",
+  "Trusted: Coq kernel+vm_compute; translators gen_closed.py/gen_sites.py/gen_tables.py; harness/lib/pyscope.py (pyflakes-like name resolution); CPython's compile/import as the judge of validity (not modelled).",
+  "Coq proof of the ingredients + regenerated closure facts + in-Coq file-set correspondence; compile/import/tomllib as search", "4/C01")
+
 def main():
     checks = []
     for pid in ALL:
